@@ -36,7 +36,8 @@ RULE = ("every tree of U(n) (all rooted shapes on n labelled leaves, n up to the
         "subset)}] and every [extract(S1 single / all-but-one / all); prune_taxa / retain_taxa in place to S2; extract(S3 within S2)], each extraction judged by the "
         "induced subtree of the source as it then is; after every extraction call (also a refused one; all layers, except that of the five "
         "length layers of the core only 'none' and 'pow2' and of the unifurcation layer only the as-generated child orders carry it) "
-        "the __dict__ of the source tree, of every source node and of every source edge is compared with its state before; "
+        "the observable fields (known fields + non-underscore attributes) of the source tree, of every source node and of every "
+        "source edge are compared with their state before; "
         "namespaces in which one label names several Taxon objects "
         "(two taxa with identical labels, or 'a'/'A' with is_case_sensitive False and True; both on the tree, or one of them "
         "only in the namespace, before or after the others) x every non-empty subset of the distinct labels x the four "
@@ -53,8 +54,10 @@ ASSUMPTIONS = [
     "keeps its taxon and label, with lengths added, None + x = x, None + None = None; a root left with one child is replaced by it)",
     "the nodes 'reported as removed' are the nodes whose restriction is empty; nodes spliced out by unifurcation suppression "
     "are suppressed, not removed, and are not expected in the returned list",
-    "'extraction never alters the source tree' includes the object state: attribute names of tree / nodes / edges, identity "
-    "of object-valued attributes and of list attributes and their elements, equality of numbers and strings",
+    "'extraction never alters the source tree' includes the observable object state: the fields Tree / Node / Edge objects of the "
+    "pinned library carry (KNOWN_FIELDS, written down in the module) and any other attribute whose name does not start with an "
+    "underscore - names present, identity (or ==) of values, identity and elements of list attributes; unknown attributes that "
+    "start with an underscore are hidden implementation state: counted (unknown_private_fields_seen_on_source), never reported",
     "an extraction that would keep no leaf must be refused; which exception it raises is not judged",
     "labels layer: prune/retain_taxa_with_labels mean 'every Taxon of the namespace whose label matches under the namespace's "
     "is_case_sensitive rule'; extract_tree_with(out)_taxa_labels say 'labels matching those listed' without a case rule, so "
@@ -507,9 +510,32 @@ def path_problem(got, src, keep):
 _PRIMITIVE = (type(None), bool, int, float, str)
 
 
+# The fields Tree / Node / Edge objects of the unchanged library carry (vars() of a built, encoded and
+# annotated tree), written down on purpose: the library under test may differ, and only what a user can
+# observe is judged.  Judged: these fields, and any other attribute whose name does not start with an
+# underscore.  An unknown attribute that starts with an underscore is hidden implementation state (a
+# cache parked on a source node is legitimate if it is handled correctly): it is counted, never reported;
+# a mishandled one shows through its behaviour in the repeated-extraction layer.
+KNOWN_FIELDS = frozenset([
+    # Node
+    "_child_nodes", "_parent_node", "_edge", "_label", "taxon", "age", "comments", "_annotations",
+    # Edge
+    "_head_node", "_bipartition", "length", "rootedge",
+    # Tree
+    "_seed_node", "_is_rooted", "_taxon_namespace", "_bipartition_edge_map", "_split_bitmask_edge_map",
+    "bipartition_encoding", "automigrate_taxon_namespace_on_assignment", "length_type", "weight",
+])
+
+
+def _judged_items(d):
+    if KNOWN_FIELDS.issuperset(d):
+        return tuple(d.items())
+    return tuple((k, v) for k, v in d.items() if k in KNOWN_FIELDS or not k.startswith("_"))
+
+
 def capture_state(tree):
-    """[(description, object, its __dict__ items as a tuple, [(list-valued attribute, its elements)])] for
-    the tree, every node and every edge reachable from the seed"""
+    """[(description, object, its judged __dict__ items as a tuple, [(list-valued attribute, its elements)])]
+    for the tree, every node and every edge reachable from the seed"""
     out = []
     objs = [("tree", tree)]
     for i, nd in enumerate(live_preorder(tree)):
@@ -517,8 +543,8 @@ def capture_state(tree):
         if nd._edge is not None:
             objs.append((-1 - i, nd._edge))
     for desc, o in objs:
-        d = o.__dict__
-        out.append((desc, o, tuple(d.items()), [(v, tuple(v)) for v in d.values() if type(v) is list]))
+        items = _judged_items(o.__dict__)
+        out.append((desc, o, items, [(v, tuple(v)) for k, v in items if type(v) is list]))
     return out
 
 
@@ -529,12 +555,13 @@ def _state_desc(desc):
 
 
 def state_problem(state):
-    """None, or a description of the first attribute of a source object that appeared, vanished or
+    """None, or a description of the first judged attribute of a source object that appeared, vanished or
     changed (same attribute names; values the same object or ==; list attributes the same list object
     with the same elements)"""
     for desc, o, items, lists in state:
-        if tuple(o.__dict__.items()) != items:
-            cur, d = o.__dict__, dict(items)
+        now = _judged_items(o.__dict__)
+        if now != items:
+            cur, d = dict(now), dict(items)
             if cur.keys() != d.keys():
                 return "%s: attributes added %s, removed %s" % (_state_desc(desc), sorted(k for k in cur if k not in d),
                                                                 sorted(k for k in d if k not in cur))
@@ -545,6 +572,17 @@ def state_problem(state):
             if len(v) != len(elems) or any(a is not b for a, b in zip(v, elems)):
                 return "%s: a list attribute was changed in place" % _state_desc(desc)
     return None
+
+
+def note_unknown_private(ctx, state):
+    """hidden implementation state on source objects: counted, not judged"""
+    n = 0
+    for desc, o, items, lists in state:
+        d = o.__dict__
+        if not KNOWN_FIELDS.issuperset(d):
+            n += sum(1 for k in d if k not in KNOWN_FIELDS and k.startswith("_"))
+    ctx.count("unknown_private_fields_seen_on_source", n)
+    ctx.maximum("unknown_private_fields_seen_on_source", n)
 
 
 def state_wanted(case):
@@ -561,6 +599,7 @@ def report_state(ctx, api, case, state, when=""):
     if state is None:
         return None
     ctx.count("source_object_states_checked")
+    note_unknown_private(ctx, state)
     p = state_problem(state)
     if p:
         ctx.violation("%s|source-object-state-changed" % api,
@@ -1311,6 +1350,7 @@ def check_repeat(case, ctx):
             err = e
         except Exception as e:
             err = e
+        note_unknown_private(ctx, state)
         if state_problem(state):
             ctx.violation(sig + "source-object-state-changed", "step %d of %s%s: %s" % (
                 k, case["steps"], " (which raised %r)" % (err,) if err is not None else "", state_problem(state)), case)
